@@ -308,6 +308,34 @@ def velocity_twins(chk, ks):
                             f"{[g / k for g in got]} vs {base}", {'k': k, 'final_speed': int(round(speed))})
 
 
+def near_width_twins(chk, ks):
+    """one pass solved with two width prescriptions a few hundredths of a millimetre apart - the same history described in other units gives the same widths"""
+    from pyroll.core import Roll, RollPass, Profile, CircularOvalGroove
+
+    def run_k(k):
+        g = CircularOvalGroove(depth=8e-3 * k, r1=6e-3 * k, r2=40e-3 * k)
+        want = {'w': None}
+        model = RollPass.OutProfile.width(lambda self, cycle: None if cycle else want['w'])
+        res = []
+        try:
+            rp = RollPass(label="p", roll=Roll(groove=g, nominal_radius=160e-3 * k, rotational_frequency=1), gap=2e-3 * k)
+            for d in (0.0, 4e-5, -2.5e-5, 9e-5):
+                want['w'] = 0.9 * g.usable_width + d * k
+                with RollPass.Profile.flow_stress(flow_stress):
+                    out = rp.solve(Profile.round(diameter=30e-3 * k, temperature=1473.15, strain=0, material=["C45", "steel"], length=1 * k))
+                res.append((out.cross_section.bounds[2] - out.cross_section.bounds[0]) / k)
+        finally:
+            model.hook.remove_function(model)
+        return res
+    base = run_k(1.0)
+    for k in ks:
+        got = run_k(k)
+        chk.cov['evaluations'] += 1
+        if any(abs(a - b) > 1e-9 * abs(b) for a, b in zip(got, base)):
+            return chk.fail('hook-scale', f"an oval pass solved four times with width prescriptions 0.9 x usable width + (0, 0.04, -0.025, 0.09) mm: outgoing widths "
+                            f"{base} described in metres, {got} (divided by {k}) when every length is scaled by {k}", {'k': k, 'history': 'near widths on one pass'})
+
+
 def astm_finding(chk):
     """the known unit-bound formula: grain size in metres is built into astm_grain_size_number"""
     from pyroll.core import Profile
@@ -344,6 +372,8 @@ def run(chk):
         n1 += sequence_twins(chk, ks_seq[:1] + [100.0], three=False, small=base)
     if not chk.failures:
         velocity_twins(chk, [1000.0, 100.0])
+    if not chk.failures:
+        near_width_twins(chk, [1000.0, 39.37007874015748])
     spline_twins(chk, ks_geo)
     # fail closed: an implementation that left the translatable fragment is no longer covered by the theorem
     allow = set(open(os.path.join(os.path.dirname(os.path.dirname(os.path.abspath(__file__))), 'opaque_allowlist.txt')).read().split())
